@@ -49,6 +49,11 @@ def run_case(case):
         return {"verdict": INCONCLUSIVE, "detail": "generator exceeded 64 KiB"}
     build = case.get("build", "chk")
     state, sig, detail, resp = classify(files, build, case.get("wasm", False))
+    if build == "asan" and state != "sanitizer":
+        # the AddressSanitizer build only contributes memory-error reports; every other exit state is judged
+        # on the native builds (frame sizes, and with them stack depth limits, differ under instrumentation)
+        return {"verdict": HELD if state in ("ok", "errors") else None, "cov": {"asan_cases": 1, "asan_state:" + state: 1},
+                "nt": "asan|%s|%s" % (case["kind"].split(":")[0], state)}
     cov = {"kind:" + case["kind"]: 1, "state:" + state: 1, "build:" + build: 1}
     if state in ("ok", "errors"):
         codes = tuple(sorted(set(e["code"] for e in (resp.get("errors") or [])))) if state == "errors" else ()
@@ -124,6 +129,16 @@ def cases(tier, seed):
         j = rng.randrange(len(fs))
         op, fs[j][1] = gen_mutate.mutate(rng, fs[j][1])
         yield {"kind": "modules_mutant", "files": [tuple(x) for x in fs], "meta": op}
+    # 9. AddressSanitizer build of the worker (Rust side of the first-generation compiler) on a sample
+    if not quick:
+        for p, t in corpus:
+            yield {"kind": "corpus", "build": "asan", "files": [(p, t)]}
+        for fs in sets + gen_mutate.corpus_import_sets():
+            yield {"kind": "modules", "build": "asan", "files": fs}
+        for i in range(4000):
+            p, t = rng.choice(corpus)
+            op, t2 = gen_mutate.mutate(rng, t)
+            yield {"kind": "mutant:" + op, "build": "asan", "files": [(p, t2)]}
     # 8. corpus for wasm
     for p, t in corpus[:: (8 if quick else 1)]:
         yield {"kind": "corpus_wasm", "files": [(p, t)], "wasm": True}
@@ -188,6 +203,8 @@ def main(tier, seed, replay=None):
         return replay_file(replay)
     common.ensure_worker("chk")
     common.ensure_worker("rel")
+    if tier != "quick":
+        common.ensure_worker("asan")
     run = common.Run(PROP, tier, seed)
     run.assumptions = [
         "inputs are UTF-8, <= 64 KiB in total, syntactic nesting <= 256",
